@@ -36,8 +36,8 @@ def expr(form, ty):
                 stmtexpr="({ k; a; })")[form]
 
 
-LOCALS = "T a, b, d; T arr[3]; struct W s; T *pa; int k; int c;"
-SETUP = "a = mk(); b = mk(); d = mk(); arr[1] = a; s.m = a; pa = &a; k = 0; c = (int)(it & 1);"
+LOCALS = "T a, b, d; T arr[3]; struct W s; T *pa; int k; int c; long double LA, LB, LD;"
+SETUP = "a = mk(); b = mk(); d = mk(); arr[1] = a; s.m = a; pa = &a; k = 0; c = (int)(it & 1); LA = 1.5L; LB = 2.5L;"
 
 
 def construct(ctxname, e, idx):
@@ -47,7 +47,9 @@ def construct(ctxname, e, idx):
                 arg="use(%s);" % e, arg7="use7(1, 2, 3, 4, 5, 6, 7, %s);" % e, oddnest="usei(%s) + k;" % e, vararg="usev(1, %s);" % e, init="{ T v = %s; }" % e,
                 **{"return": "use(r_%d(it));" % idx},
                 ifcond="if (%s) k++;" % e, assignrhs="d = %s;" % e, stmtexprdiscard="({ %s; });" % e,
-                stmtexprvalue="d = ({ k++; %s; });" % e)[ctxname]
+                stmtexprvalue="d = ({ k++; %s; });" % e,
+                ldpendcomma="LD = LA + ((%s), LB);" % e, ldpendstmtexpr="LD = LA * ({ %s; LB; });" % e,
+                ldpendvoid="k = LA < ((void)(%s), LB);" % e)[ctxname]
 
 
 def render_unit(ty, cases, ns=NS):
